@@ -90,6 +90,13 @@ Definition print_offsets (l : list (N * dtype)) : list tok :=
 Definition print_pragma_arg (a : pragma_arg) : tok :=
   match a with PAId x => TId x | PAInt n => TInt n end.
 
+Definition print_duration (names : list N) (dur : expr) : list tok :=
+  match names, dur with
+  | [], ENum false _ => print_e dur
+  | [], _ => TLParen :: print_e dur ++ [TRParen]
+  | _, _ => print_e dur
+  end.
+
 Definition print_instr (i : instr) : list tok :=
   match i with
   | IArith c d s | ILogic c d s => TCmd c :: print_memref d ++ print_operand s
@@ -104,7 +111,10 @@ Definition print_instr (i : instr) : list tok :=
       | Some (x, offs) =>
           TSharing :: TId x :: match offs with [] => [] | _ => TOffset :: print_offsets offs end
       end
-  | IDelay qs names dur => TCmd CDelay :: map print_qubit qs ++ map TString names ++ print_e dur
+  | IDelay qs names dur =>
+      (* without frame names anything but a plain non-negative real literal is parenthesised
+         (/repo commit 47d01e0) *)
+      TCmd CDelay :: map print_qubit qs ++ map TString names ++ print_duration names dur
   | IFence qs => TCmd CFence :: map print_qubit qs
   | IGate mods name ps qs =>
       map TModifier mods ++ TId name :: print_params ps ++ map print_qubit qs
@@ -172,18 +182,6 @@ Definition cmd_in (c : cmd) (l : list cmd) : bool :=
 
 Definition nonempty {A} (l : list A) : bool := match l with [] => false | _ => true end.
 
-(** DELAY without frame names: the duration must not begin with a token that [many0(parse_qubit)]
-    swallows, unless it is a plain integral real (which the parser recovers from the qubit list) *)
-Definition delay_ok (names : list N) (dur : expr) : bool :=
-  nonempty names ||
-  match dur with
-  | ENum false (VInt _) => true
-  | _ => match print_e dur with
-         | TInt _ :: _ | TId _ :: _ | TVar _ :: _ => false
-         | _ => true
-         end
-  end.
-
 Definition wf_instr (i : instr) : bool :=
   match i with
   | IArith c _ s => cmd_in c [CAdd; CSub; CMul; CDiv] && wf_operand true s
@@ -191,7 +189,7 @@ Definition wf_instr (i : instr) : bool :=
   | ICmp c _ _ r => cmd_in c [CEq; CGE; CGT; CLE; CLT] && wf_operand true r
   | IUnary c _ => cmd_in c [CNeg; CNot]
   | IStore _ _ s | IMove _ s => wf_operand true s
-  | IDelay _ names dur => wf_expr dur && delay_ok names dur
+  | IDelay _ _ dur => wf_expr dur
   | IGate _ _ ps _ => forallb wf_expr ps
   | IFrameSet c f e =>
       cmd_in c [CSetFrequency; CSetPhase; CSetScale; CShiftFrequency; CShiftPhase]
